@@ -393,12 +393,27 @@ def call_method(fr, recv: Any, name: str, args: list, kwargs: dict, node: ast.AS
                 out.append(fr.to_str(v))
             return pai._simplify(SStr(out))
         if name == "split":
+            maxsplit = kwargs.get("maxsplit", args[1] if len(args) > 1 else -1)
+            if not isinstance(maxsplit, int):
+                raise AnalysisError("split with a symbolic maxsplit")
+            sep = _c(args[0]) if args and args[0] is not None else None
             if s.is_concrete():
-                return s.concrete().split(*[_c(a) for a in args])
+                return s.concrete().split(sep, maxsplit)
             try:
-                return s.split(_c(args[0]) if args else None)
+                full = s.split(sep)
             except Undecided as u:
                 raise AnalysisError(f"split undecided: {u.descr}")
+            if maxsplit < 0 or len(full) <= maxsplit + 1:
+                return full
+            if sep is None:
+                raise AnalysisError("split(None, maxsplit) of a symbolic string")
+            tail: list = []
+            for i_, f_ in enumerate(full[maxsplit:]):
+                if i_:
+                    tail.append(sep)
+                tail += list(pai.as_sstr(f_).pieces)
+            rest = pai._simplify(SStr(tail))
+            return full[:maxsplit] + [rest]
         if name in ("isdigit", "isalpha", "isalnum", "isupper", "islower", "isspace", "isnumeric", "isidentifier") and s.is_concrete():
             return getattr(s.concrete(), name)()
         if name in ("removeprefix", "removesuffix"):
